@@ -740,6 +740,8 @@ def _process_checks(prop: str, ctx: Ctx, stats: Stats, cmds, only=None):
         if il.startswith("err "):
             stats.note(src["tree_text"], True, "process-error:" + il.split()[1])
             err = il.split()[1].split(":")[0]
+            if err == "SQLError" and has_nested_compound(src["tree"]):
+                err += ":nested-compound"
             out.append(Violation(prop, f"processing-failed:{err}",
                                  f"{cmds[k]}: {il}; tree {src['tree_text']}"))
             continue
